@@ -28,6 +28,7 @@ REQUIRED = {
     "recurrence_values_checked": 500, "perturbation_comparisons": 100,
     "ppo_env_rollouts_checked": 6, "a2c_envs_checked": 6,
     "subtrajectory_loss_perturbations": 5,
+    "datasets_with_inner_one_step_episodes": 2,
 }
 TIMEOUT = {"quick": 1200, "thorough": 7000}
 ASSUMPTIONS = ["truncation does not cut accumulation (the statement says "
